@@ -243,7 +243,9 @@ package swagen30
 //@ spec hidden30(r definitions.RouteMetadata) bool = r.Hiding.Type == definitions.HideMethodAlways
 //@ rec countVisible30(def definitions.ControllerMetadata, n int) int = ite(n <= 0, 0, countVisible30(def, n-1) + ite(hidden30(def.Routes[n-1]), 0, 1))
 
-//@ func generateControllerSpec props C01,C11,C14
+// C04: generation stops at the first controller that fails (the only failure is an undeclared security scheme, see
+// generateOperationSecurity#undeclared): the count of registered routes is only promised for a nil result
+//@ func generateControllerSpec props C01,C04,C11,C14
 //@ requires openapi != nil && openapi.Components != nil
 //@ requires openapi != nil && openapi.Paths != nil && config != nil
 //@ requires forall(k, 0, len(def.Routes), len(def.Routes[k].Responses) >= 1 && swagtool.noBodyFormMix(def.Routes[k]))
@@ -257,7 +259,7 @@ package swagen30
 
 //@ rec sumVisible30(defs []definitions.ControllerMetadata, n int) int = ite(n <= 0, 0, sumVisible30(defs, n-1) + countVisible30(defs[n-1], len(defs[n-1].Routes)))
 // All controllers: exactly the routes that are not hidden are registered (one registration per such route).
-//@ func GenerateControllersSpec props C01,C11,C14
+//@ func GenerateControllersSpec props C01,C04,C11,C14
 //@ requires openapi != nil && openapi.Components != nil
 //@ requires openapi != nil && openapi.Paths != nil && config != nil
 //@ requires swagtool.emittable(defs)
